@@ -296,8 +296,11 @@ def Client.run (c : Client) : List CEvent → Client × List Out
 
 /-! ### scripted server personalities (harness/exchange.c) on top of the same message layer -/
 
+/-- `da` (harness personality "da"): like `dn`, but the application sends its delayed response as an ACK-typed message
+    with a message id of its own — an ACK that matches nothing on the client's send queue (not a response style of
+    RFC 7252, but libcoap's client passes such a message to handle_response, where only `last_ack_mid` filters it) -/
 inductive Pers where
-  | pb | ac | tr | dc | dn
+  | pb | ac | tr | dc | dn | da
   deriving DecidableEq, Repr
 
 structure Async where
@@ -342,7 +345,7 @@ def handler (s : Server) (now : Nat) (req : Dgram) (fired : Bool) : Server × Na
                          due := if s.pers = .ac then some (now + s.D) else none }
       let s1 := { s with txMid := mid, asyncs := a :: s.asyncs }
       (if s.pers = .tr then { s1 with pend := s1.pend ++ [{ token := req.token, due := now + s.D }] } else s1, 0)
-  | .dc | .dn =>
+  | .dc | .dn | .da =>
     if s.pend.any (fun p => p.token == req.token) then (s, 0)
     else if s.dedup ∧ s.answered.contains req.token then (s, 0)
     else ({ s with pend := s.pend ++ [{ token := req.token, due := now + s.D }] }, 0)
@@ -428,7 +431,8 @@ def appTimer (s : Server) (now : Nat) : Option (Server × List Out) :=
       some (s2.tick now)
     | _ =>
       let mid := (s1.txMid + 1) % 65536
-      let rsp : Dgram := { type := if s.pers = .dc then .con else .non, code := 69, mid := mid, token := p.token }
+      let rsp : Dgram := { type := if s.pers = .dc then .con else if s.pers = .da then .ack else .non, code := 69, mid := mid,
+                           token := p.token }
       let s2 := { s1 with txMid := mid, answered := s1.answered ++ [p.token] }
       let (L1, o) := s2.L.send now rsp s2.T
       some ({ s2 with L := L1 }, o)
@@ -521,6 +525,18 @@ def bumpReq (rs : List Req) (p : Req → Bool) (f : Req → Req) : List Req :=
   | [] => []
   | r :: t => if p r then f r :: t else r :: bumpReq t p f
 
+/-- find_req of the harness: the request the application is currently waiting for if it carries this token, else the
+    first request with this token (tokens may repeat, e.g. the zero-length token on every request) -/
+def bumpRsp (rs : List Req) (cur : Option Nat) (tok : Bytes) : List Req :=
+  let inc := fun (r : Req) => { r with nrsp := r.nrsp + 1 }
+  match cur with
+  | some i =>
+    match rs[i]? with
+    | some r => if r.token == tok then rs.mapIdx (fun j (q : Req) => if j = i then inc q else q)
+                else bumpReq rs (fun r => r.token == tok) inc
+    | none => bumpReq rs (fun r => r.token == tok) inc
+  | none => bumpReq rs (fun r => r.token == tok) inc
+
 /-- absorb the outputs of a client call -/
 def clientOuts (sim : Sim) : List Out → Sim
   | [] => sim
@@ -529,7 +545,7 @@ def clientOuts (sim : Sim) : List Out → Sim
       | .tx d => (({ sim with trace := .ctx sim.now d :: sim.trace } : Sim).transmit false d)
       | .callResponse d ok =>
         { sim with trace := .rsp sim.now d ok :: sim.trace, verdicts := sim.verdicts.tail,
-                   reqs := bumpReq sim.reqs (fun r => r.token == d.token) (fun r => { r with nrsp := r.nrsp + 1 }) }
+                   reqs := bumpRsp sim.reqs sim.cur d.token }
       | .callNack r mid =>
         { sim with trace := .nack sim.now r mid :: sim.trace,
                    reqs := bumpReq sim.reqs (fun q => q.sent && q.mid == mid) (fun q => { q with nnack := q.nnack + 1 }) }
